@@ -134,6 +134,24 @@ def fixed():
             checks.append(dict({"op": "create", "at": "", "h": ["md5"], "now": "2026-03-01 12:30:00"}, **kw))
             out.append({"profile": "c03-three-levels", "root": "root", "tree": tree, "ops": seal + mut + checks,
                         "c03": {"altered": [], "removed": [victim] if victim else [], "added": [], "patterns": [], "late_pattern": None, "n_seal": 3, "n_mut": len(mut)}})
+    # the whole folder of a nested history removed (its ascmhl folder with it): the enclosing history recorded the folder
+    for nodh in (False, True):
+        kw = {"n": True} if nodh else {}
+        tree = {"A/x.txt": "x", "A/B/y.txt": "y", "top.txt": "t"}
+        seal = [dict({"op": "create", "at": "A", "h": ["md5"], "now": "2026-03-01 12:00:01"}, **kw), dict({"op": "create", "at": "", "h": ["md5"], "now": "2026-03-01 12:00:02"}, **kw)]
+        out.append({"profile": "c03-nested-folder-removed", "root": "root", "tree": tree,
+                    "ops": seal + [{"op": "rm", "path": "A"}, {"op": "verify", "at": ""}, {"op": "diff", "at": ""}, dict({"op": "create", "at": "", "h": ["md5"], "now": "2026-03-01 12:30:00"}, **kw)],
+                    "c03": {"altered": [], "removed": ["A"], "added": [], "patterns": [], "late_pattern": None, "n_seal": 2, "n_mut": 1}})
+    # a pattern that only a nested history knows (it was sealed on its own with it) says nothing about same-named
+    # entries elsewhere in the enclosing tree
+    for kind in ("alter", "remove", "add"):
+        tree = {"logs/x.txt": "x", "logs/z.txt": "z", "child/logs/y.txt": "y", "child/a.txt": "a", "top.txt": "top"}
+        seal = [{"op": "create", "at": "child", "h": ["md5"], "now": "2026-03-01 12:00:01", "i": ["logs"]}, {"op": "create", "at": "", "h": ["md5"], "now": "2026-03-01 12:00:02"}]
+        mut = {"alter": [{"op": "write", "path": "logs/x.txt", "data": "ALTERED"}], "remove": [{"op": "rm", "path": "logs/x.txt"}], "add": [{"op": "write", "path": "logs/new.txt", "data": "n"}]}[kind]
+        truth = {"altered": ["logs/x.txt"] if kind == "alter" else [], "removed": ["logs/x.txt"] if kind == "remove" else [], "added": ["logs/new.txt"] if kind == "add" else []}
+        out.append({"profile": "c03-nested-only-pattern", "root": "root", "tree": tree,
+                    "ops": seal + mut + [{"op": "verify", "at": ""}, {"op": "diff", "at": ""}, {"op": "create", "at": "", "h": ["md5"], "now": "2026-03-01 12:30:00"}],
+                    "c03": dict(truth, patterns=[], late_pattern=None, n_seal=2, n_mut=1)})
     # names that begin or end with a blank (the report texts cannot be split reliably for such names: judged on exit
     # codes only, which is what the flag says)
     tree = {"notes.txt ": "n", " lead.txt": "l", "Day 1 /x.txt": "x", "plain.txt": "p"}
